@@ -15,7 +15,7 @@ def run_conc(ctx, *, invs, oracle_fns, programs=None, n_random=(10, 120), n_scen
                 "under detsched (random / PCT schedules, function durations, API latency, crashes), checked by direct oracles. " + extra_rule)
     ctx.assumptions += ASSUME
     rng = random.Random(ctx.seed * 104729 + sum(map(ord, ctx.pid)))
-    executor_sweep(ctx, invs, tag=f"ex_{ctx.pid}", budget=(10 if ctx.quick else None), **(sweep_kw or {}))
+    executor_sweep(ctx, invs, tag=f"ex_{ctx.pid}", budget=(7 if ctx.quick else None), **(sweep_kw or {}))
     progs = [CURATED_CONC[p] for p in (programs or list(CURATED_CONC))]
     for _ in range(n_random[0] if ctx.quick else n_random[1]):
         progs.append(gen_conc_program(rng))
